@@ -57,6 +57,7 @@ struct G {
       else { s.a = 1; snprintf(b, sizeof b, "global_label_%u_%s", idx, r.chance(1, 3) ? "with_a_rather_long_name_to_leave_the_embedded_storage" : "x"); }
       s.text = b;
     }
+    else if (r.chance(1, 6)) s.a = 3;   // created through the CodeHolder, not through the emitter that will use it
     p.steps.push_back(s);
     bound.push_back(0);
     return idx;
@@ -163,7 +164,20 @@ struct G {
     namespace I = a64::Inst;
     static const uint32_t alu[] = {I::kIdAdd, I::kIdSub, I::kIdAnd, I::kIdOrr, I::kIdEor, I::kIdMul};
     static const arm::CondCode ccs[] = {arm::CondCode::kEQ, arm::CondCode::kNE, arm::CondCode::kLT, arm::CondCode::kGE, arm::CondCode::kHI, arm::CondCode::kLS};
-    switch (r.below(16)) {
+    switch (r.below(17)) {
+      case 15: { // logical (bit-mask) immediates: a run of ones rotated within an element, replicated over the register
+        bool w = r.chance(1, 3);
+        uint32_t width = w ? 32 : 64, e = 2u << r.below(w ? 5 : 6), ones = 1 + uint32_t(r.below(e - 1)), rot = uint32_t(r.below(e));
+        uint64_t elem = ones == 64 ? ~uint64_t(0) : ((uint64_t(1) << ones) - 1);
+        if (rot) elem = ((elem >> rot) | (elem << (e - rot))) & (e == 64 ? ~uint64_t(0) : ((uint64_t(1) << e) - 1));
+        uint64_t mask = 0; for (uint32_t i = 0; i < width; i += e) mask |= elem << i;
+        static const uint32_t logical[] = {I::kIdAnd, I::kIdOrr, I::kIdEor, I::kIdAnds};
+        uint32_t which = uint32_t(r.below(6));
+        if (which == 4) inst(I::kIdTst, {w ? aw(areg()) : ax(areg()), imm(int64_t(mask))});
+        else if (which == 5) inst(I::kIdMov, {w ? aw(areg()) : ax(areg()), imm(int64_t(mask))});
+        else inst(logical[which], {w ? aw(areg()) : ax(areg()), w ? aw(areg()) : ax(areg()), imm(int64_t(mask))});
+        break;
+      }
       case 0: case 1: { bool w = r.chance(1, 3); inst(r.pick(alu), {w ? aw(areg()) : ax(areg()), w ? aw(areg()) : ax(areg()), w ? aw(areg()) : ax(areg())}); break; }
       case 2: { inst(r.chance(1, 2) ? I::kIdAdd : I::kIdSub, {ax(areg()), ax(areg()), imm(int64_t(r.below(4096)))}); break; }
       case 3: { inst(I::kIdMov, {ax(areg()), ax(areg())}); break; }
@@ -327,6 +341,7 @@ Error apply_step(BaseEmitter& e, CodeHolder& code, const Program& p, size_t i, A
       Label l;
       if (s.a == 0) l = e.new_label();
       else if (s.a == 1) l = e.new_named_label(s.text.c_str(), s.text.size(), LabelType::kGlobal);
+      else if (s.a == 3) { uint32_t id = Globals::kInvalidId; err = code.new_label_id(Out(id)); ctx.labels.push_back(err == Error::kOk ? Label(id) : Label()); break; }
       else l = e.new_named_label(s.text.c_str(), s.text.size(), LabelType::kLocal, label_at(s.b).id());
       ctx.labels.push_back(l);
       if (!l.is_valid()) err = make_error(Error::kOutOfMemory);
@@ -663,6 +678,7 @@ bool build_a64_function(a64::Compiler& cc, const FuncParams& fp, RecordingHandle
       }
       default: {
         CK(cc.mul(any(), any(), any()));
+        CK(cc.and_(any(), any(), Imm(uint64_t(0xFFFF) << r.below(40))));   // logical (bit-mask) immediate
         if (fp.stack) { a64::Gp t = cc.new_gp64("t"); if (eh.first != Error::kOk) return false; CK(cc.ldr(t, stack)); CK(cc.add(any(), any(), t)); }
         break;
       }
